@@ -50,7 +50,7 @@ Facade2 ==
     \cup {A("ChMove", n, 0, 0, <<t>>, (t % N) + 1, ((t + 1) % N) + 1, 0, 0) : n \in Node, t \in Task}
     \cup {A("ChSort", n, 0, 0, <<>>, 0, 0, k, r) : n \in Node, k \in 1..3, r \in 0..1}
     \cup {A("ChReorder", n, 0, 0, s, 0, 0, 0, 0) : n \in Node, s \in SeqsFrom(IdPool, 0, 2)}
-    \cup {A("ChRemoveAll", n, 0, 0, <<>>, 0, 0, k, 0) : n \in Node, k \in 0..2}
+    \cup {A("ChRemoveAll", n, 0, 0, <<>>, 0, 0, k, 0) : n \in Node, k \in {0, 1, 2, 4}}
     \cup {A(nm, x, t, 0, <<>>, 0, 0, 0, 0) :
              nm \in {"PredAppend", "PredRemove", "SuccAppend", "SuccRemove"}, x \in Task, t \in Task}
 
